@@ -164,7 +164,7 @@ type vfGateStub struct {
 
 func vfGateNewStub() *vfGateStub {
 	s := &vfGateStub{}
-	s.srv = httptest.NewUnstartedServer(http.HandlerFunc(func(w http.ResponseWriter, r *http.Request) {
+	s.srv = vfUnstartedServer(http.HandlerFunc(func(w http.ResponseWriter, r *http.Request) {
 		r.ParseForm()
 		s.mu.Lock()
 		s.seen = append(s.seen, vfGateSeen{r.Form.Get("tls"), r.Form.Get("common_name"), r.Form.Get("secret"), r.Form.Get("remote_ip"), r.Method})
@@ -344,9 +344,7 @@ func vfGateStart(cfg vfGateCfg, certs string, stub *vfGateStub, dataDir string) 
 	opts := NewOptions()
 	opts.Logger = vfGateNullLogger{}
 	opts.LogLevel = LOG_FATAL
-	opts.TCPAddress = "127.0.0.1:0"
-	opts.HTTPAddress = "127.0.0.1:0"
-	opts.HTTPSAddress = "127.0.0.1:0"
+	opts.TCPAddress, opts.HTTPAddress, opts.HTTPSAddress = vfLoop3()
 	opts.DataPath = dataDir
 	opts.MaxMsgSize = vfGateMaxMsg
 	opts.MaxBodySize = vfGateMaxBody
@@ -366,10 +364,8 @@ func vfGateStart(cfg vfGateCfg, certs string, stub *vfGateStub, dataDir string) 
 		if cfg.Auth2 {
 			// a port nobody listens on: QueryAnyAuthd must fall through to the live server whatever
 			// the (random) order in which it tries them
-			l, _ := net.Listen("tcp", "127.0.0.1:0")
-			dead := l.Addr().String()
-			l.Close()
-			opts.AuthHTTPAddresses = append(opts.AuthHTTPAddresses, dead)
+			// (a process-private loopback IP, port 1: dead for every process of the host — vfLoopDead)
+			opts.AuthHTTPAddresses = append(opts.AuthHTTPAddresses, vfLoopDead())
 		}
 	}
 	n, err := New(opts)
